@@ -168,6 +168,13 @@ def run(ctx):
         ctx.violation(f)
         return
 
+    f = core.run_random(ctx, random_shard, 2000, 20000)
+    if f is not None:
+        ctx.violation(f)
+
+
+def random_shard(st, shard, nshards, payload):
+    from hypothesis import strategies as hs
     @hs.composite
     def cases(draw):
         n = draw(hs.integers(5, 12))
@@ -185,13 +192,12 @@ def run(ctx):
                 'via': draw(hs.sampled_from(['ctor', 'incremental'])), 'op': op, 'X': X,
                 'xtype': draw(hs.sampled_from(['list', 'set', 'tuple']))}
 
-    st = ctx.stats
 
     def body(inp):
         st.random_case(inp, bool(inp['edges']) and (inp['op'] in ('reverse', 'clone') or 0 < len(inp['X']) < inp['n']))
         st.bump('random op=%s' % inp['op'])
         return check_op(inp)
 
-    f = core.run_hypothesis(ctx, cases(), body, ctx.pick(600, 8000))
+    f = core.hyp_run(payload['seed'] * 1000 + shard, cases(), body, payload['n'])
     if f is not None:
-        ctx.violation(f)
+        st.failure = f
